@@ -621,6 +621,28 @@ func isParentClass(
 	isInclude bool,
 ) bool {
 
+	seen := map[base.ClassNode]bool{}
+
+	return isParentClassGuarded(sig, frame, class, isStaticTarget, isExtend, isInclude, seen)
+}
+
+// seen keeps the walk finite when classes inherit from each other cyclically
+func isParentClassGuarded(
+	sig base.Sig,
+	frame, class string,
+	isStaticTarget bool,
+	isExtend bool,
+	isInclude bool,
+	seen map[base.ClassNode]bool,
+) bool {
+
+	node := base.ClassNode{Frame: frame, Class: class, IsInclude: isInclude, IsExtend: isExtend}
+	if seen[node] {
+		return false
+	}
+
+	seen[node] = true
+
 	if isExtend && !isStaticTarget {
 		return false
 	}
@@ -648,7 +670,7 @@ func isParentClass(
 	classNode := base.ClassNode{Frame: frame, Class: class}
 
 	for _, parentNode := range base.ClassInheritanceMap[classNode] {
-		if isParentClass(sig, parentNode.Frame, parentNode.Class, isStaticTarget, parentNode.IsExtend, parentNode.IsInclude) {
+		if isParentClassGuarded(sig, parentNode.Frame, parentNode.Class, isStaticTarget, parentNode.IsExtend, parentNode.IsInclude, seen) {
 			return true
 		}
 	}
